@@ -26,26 +26,28 @@ Decided by
     onnxruntime as a second voice where it is deterministic, exact byte comparison of string constants that reach an
     output (the evaluators print b"a" and b"a\0" alike).
 
-Theorems (Property.v)
-  full:    C05_den_fuel_monotone, C05_computes_deterministic, C05_sim_refines (toolkit = sem_replace_uses /
-           sem_remove_dead / eliminate-identity / sem_lift_constant as the cases of one simulation; sem_reorder =
-           C05_reorder_preserves), C05_wfb_sound, C05_identity_elim_preserves (main graph, subgraphs, functions),
-           C05_dedup_preserves (both dedup passes share the model), C05_lift_constants_preserves (all parameters),
-           C05_reorder_preserves + C05_reorder_signature (TopologicalSort as a relation; exact order = C12),
-           C05_sequence + C05_sequence_signature (sequences of identity-elim / dedup / DCE; inputs, #outputs, formals,
-           WF kept: Valid -> Valid for the structural part used by the proofs).
-  partial: C05_dce_preserves_partial — node + initializer removal + trailing-None trimming, WITHOUT the schema-driven
-           optional-output trimming (sc = []); with it the statement is false (C05_dce_batchnorm_refuted).
-           C05_cse_step_preserves_partial — one CSE merge step when the key is faithful on the two nodes and no value of
-           the removed node is a graph output; missing: the loop and the graph-output path (Identity insertion).
-  refuted (= findings, witnesses by vm_compute and replayed on the implementation on every run):
-           C05_identity_elim_valid_refuted, C05_dce_batchnorm_refuted, C05_cse_key_refuted;
-           C05_cse_key_distinguishes_attribute_type records the fixed defect 187cb2f.
-  not proved in Coq (correspondence + oracle only): CSE as a whole, OutputFix, LiftSubgraphInitializers, Add/Remove
-           InitializersFromInputs, RemoveUnusedFunctions (all modelled + structurally compared), Inline,
-           AddDefaultAttributes (oracle only), NameFix/ClearMetadata/ShapeInference/RemoveUnusedOpsets (frame check).
-  NameFix: the semantics is identity-based; names, metadata, shapes are outside the term language, so `sem_rename` is
-           the frame check + the execution oracle (name capture would show there); naming itself is property C15.
+Theorems (Property.v, 21, all "Closed under the global context"; proofs in C05/Proofs.v .. Proofs12.v; Proofs8/9/10 were
+written by helper agents from my specs: alias lemma + OutputFix, small passes + signatures, DCE with schema)
+  toolkit: C05_den_fuel_monotone, C05_computes_deterministic, C05_sim_refines (replace-uses / remove-dead /
+           eliminate-identity / lift-constant / trim-outputs as cases of ONE simulation), C05_alias_refines (Identity
+           inserted in front of graph outputs; fuel doubles), C05_wfb_sound.
+  passes (full): C05_identity_elim_preserves, C05_cse_preserves (whole pass incl. output aliasing / Identity insertion;
+           C05_cse_key_faithful now positive after af1d2e4), C05_dedup_preserves (plain + hashed), C05_dce_preserves (incl. the
+           schema-driven optional-output trimming, schema table as a parameter; the BatchNormalization training_mode branch is
+           excluded by NoBNTraining = the known finding, C05_dce_batchnorm_refuted), C05_lift_constants_preserves,
+           C05_output_fix_preserves, C05_lift_subgraph_inits_preserves, C05_add_inits_to_inputs_preserves and
+           C05_remove_inits_from_inputs_preserves (main graph; `computes` does not depend on the main inputs: iff),
+           C05_reorder_preserves (TopologicalSort as the relation reorder_modelb checked on the implementation's result),
+           C05_passes_signature (non-initializer inputs kept by each of them).
+  composition: C05_sequence — any sequence of these ten passes: Refines (computes preserved for every environment over the
+           non-initializer inputs; those inputs and the number of outputs kept) and Inv = WF and NoOpFunc kept; every pass's
+           own side condition (fresh counter above all identities, locality of outputs, ...) is required where it runs.
+  witnesses: C05_dce_batchnorm_refuted (known finding), C05_identity_elim_outer_scope_witness and
+           C05_cse_key_distinguishes_attribute_type (fixed defects stay fixed).
+  not proved in Coq (correspondence + oracle only): InlinePass, AddDefaultAttributesPass, RemoveUnusedFunctionsPass;
+           NameFix/ClearMetadata/ShapeInference/RemoveUnusedOpsets touch only what is outside the term language (frame check).
+  Noted by the DCE proof: trim_outputs drops trailing outputs that are in `unnamed` (name empty) even if they are used —
+           hypothesis UnnamedDead; deserialized models never have used unnamed values.
 
 Modelled, not verified
   real operator semantics (uninterpreted); onnx schema table for optional outputs (handed to the model from onnx.defs);
@@ -191,7 +193,7 @@ PASS_NAMES = ["dce", "ident", "cse", "cse100", "dedup", "dedup8", "deduph", "top
               "liftsub", "rminit", "addinit", "inline", "outfix", "defattr", "shape", "clear", "rmfunc", "rmopset"]
 # passes with an executable Gallina model (structural correspondence = model pass output vs implementation)
 MODELLED = {"dce", "ident", "cse", "cse100", "dedup", "dedup8", "deduph", "lift", "lift0", "liftall", "liftsub", "rminit",
-            "addinit", "outfix", "rmfunc"}
+            "addinit", "outfix", "rmfunc", "defattr"}
 # passes that may only touch what is outside the term language (names, metadata, shapes, opset imports): frame check
 FRAME = {"namefix", "shape", "clear", "rmopset"}
 RELATIONAL = {"topo"}        # checked against the reorder relation (exact order: property C12)
@@ -423,6 +425,36 @@ def schema_table(m) -> str:
     return clist(f"({cstr(k)}, {clist('true' if b else 'false' for b in v)})" for k, v in sorted(rows.items()))
 
 
+def defaults_table(m, conv) -> str:
+    """operator id -> (name, default) of the schema's optional attributes with a default value, read with the calls the
+    pass makes (version = node.version or the MAIN graph's opset import of the node's domain)."""
+    import onnx
+    import onnx_ir as ir
+    nodes = list(ir.traversal.RecursiveGraphIterator(m.graph))
+    for f in m.functions.values():
+        nodes += list(ir.traversal.RecursiveGraphIterator(f))
+    rows = {}
+    for n in nodes:
+        key = (n.domain, n.op_type, n.overload)
+        if key in rows:
+            continue
+        ver = n.version if n.version is not None else m.graph.opset_imports.get(n.domain)
+        if ver is None:
+            continue
+        try:
+            sch = onnx.defs.get_schema(n.op_type, ver, domain=n.domain)
+        except Exception:  # noqa: BLE001
+            continue
+        defs = []
+        for an, ad in sch.attributes.items():
+            if ad.required or not (ad.default_value and ad.default_value.type != onnx.AttributeProto.UNDEFINED):
+                continue
+            defs.append((an, conv.attr(ir.serde.deserialize_attribute(ad.default_value))))
+        rows[key] = defs
+    return clist(f"(({cstr(d)}, {cstr(o)}, {cstr(ov)}), {clist(f'({cstr(an)}, {av})' for an, av in defs)})"
+                 for (d, o, ov), defs in sorted(rows.items()))
+
+
 FUEL = "12%nat"
 
 
@@ -479,6 +511,8 @@ def model_expr(name: str, p, m, conv: Conv, info, before: str, base: int) -> str
         return f"(fst (output_fix {clist(scopes)} {before} {base}))"
     if name == "rmfunc":
         return f"(remove_unused_funcs {FUEL} {before})"
+    if name == "defattr":
+        return f"(add_default_attrs {defaults_table(m, conv)} {before})"
     return None
 
 
@@ -631,9 +665,10 @@ def oracle(spec: dict, passes: list[str], seed: int, protos=None, raised=None, u
     if v0 is not None:
         info["invalid"] = "checker:" + v0[:120]
         return [], info
+    run_exec = G.run_ort if spec.get("judge") == "ort" else G.run_ref
     try:
         vals = G.feeds_for(mp0, seed)
-        ref0 = G.run_ref(mp0, vals)
+        ref0 = run_exec(mp0, vals)
     except Exception as e:  # noqa: BLE001
         info["invalid"] = "reference-evaluator-before:" + type(e).__name__ + ":" + str(e)[:100]
         return [], info
@@ -651,7 +686,7 @@ def oracle(spec: dict, passes: list[str], seed: int, protos=None, raised=None, u
             bad.append(f"signature-changed: step {i} {name}: {sig0} -> {sig}")
             break
         try:
-            ref = G.run_ref(mp, vals)
+            ref = run_exec(mp, vals)
         except Exception as e:  # noqa: BLE001
             bad.append(f"execution-fails-after: step {i} {name}: {type(e).__name__}: {str(e)[:160]}")
             break
@@ -804,6 +839,8 @@ def classify(spec: dict, passes: list[str], failure: str) -> str | None:
     if step_pass == "dce" and kind.startswith("outputs-differ") and any(
             n["op"] == "BatchNormalization" and "training_mode" in n.get("attrs", {}) for n in _walk_nodes(spec)):
         return "dce-batchnorm-training-mode"
+    if step_pass == "ident" and kind == "checker-rejects-after" and "should not have duplicate outputs" in failure:
+        return "identity-elim-duplicate-function-outputs"
     if step_pass == "ident" and any(True for _ in _subgraphs(spec)):
         if kind == "checker-rejects-after" and "is not an output of any node in graph" in failure:
             return "identity-elim-outer-scope-output"
@@ -986,6 +1023,30 @@ def gen_cases(rng, n_specs: int, n_seq: int):
     return cases
 
 
+def multi_opset_cases(rng, n: int):
+    """Models with DIFFERENT default-domain opsets through the same passes in one process (module-level state of a pass
+    must not leak from one model to the next): operators whose schema defaults changed between opset versions.
+    Opset < 13 models are judged by onnxruntime (the reference evaluator implements the opset-13 Softmax family only)."""
+    cases = []
+    for i in range(n):
+        op = rng.choice(["Softmax", "LogSoftmax", "Hardmax"])
+        order = rng.choice([[11, 13], [13, 11], [11, 13, 12, 18], [12, 13]])
+        for ver in order:
+            nodes = [{"op": op, "ins": ["x0"], "outs": ["y0"], "attrs": {}}]
+            if rng.random() < 0.5:
+                nodes.append({"op": rng.choice(["Softmax", "LogSoftmax"]), "ins": ["y0"], "outs": ["y1"], "attrs": {}})
+            out = nodes[-1]["outs"][0]
+            spec = {"opset": ver, "ir_version": 8, "inputs": [["x0", "F222"]], "inits": [], "functions": [], "nodes": nodes,
+                    "outputs": [[out, "F222"]]}
+            if ver < 13:
+                spec["judge"] = "ort"
+            passes = rng.choice([["defattr"], ["defattr"], ["defattr", "cse"], ["dce", "defattr"]])
+            # a replay must re-create the process history: the models that went through the passes before this one
+            spec["history"] = [[{k: v for k, v in c[0].items() if k != "history"}, c[1]] for c in cases[-6:]]
+            cases.append((spec, passes, rng.randrange(1 << 30)))
+    return cases
+
+
 def check_cases(ck, cases, tag: str, structural: bool = True):
     """Run implementation + oracle on the cases; structural correspondence in Coq. Returns oracle failures."""
     steps_all, owners = [], []
@@ -1118,6 +1179,10 @@ def run(ck) -> None:
     f2, m2 = check_cases(ck, cases, "gen")
     failures += f2
     mism += m2
+    # models of different opsets through the same passes, in this one process
+    f3, m3 = check_cases(ck, multi_opset_cases(ck.rng, 12 if not ck.thorough else 120), "multiopset", structural=False)
+    failures += f3
+    ck.hist("streams", "multi-opset-models")
     for st, (spec, passes, seed) in mism[:5]:
         path = ck.write_replay({"kind": "correspondence-mismatch", "pass": st.pass_name, "step_kind": st.kind, "spec": spec,
                                 "passes": passes, "input_seed": seed, "model_expr": st.expr,
@@ -1153,6 +1218,11 @@ def replay(rp: dict) -> int:
               json.dumps(rp.get("broken"), indent=1)[:3000])
         return 1
     passes = rp.get("passes") or rp["witness"]["passes"]
+    for hspec, hpasses in spec.get("history", []):
+        try:
+            run_case(hspec, hpasses, conv_steps=False)       # earlier models of the same process (module-level pass state)
+        except Exception:  # noqa: BLE001
+            pass
     bad, info = oracle(spec, passes, rp.get("input_seed", 0))
     print(json.dumps({"passes": passes, "valid_before": info.get("valid"), "failures": bad,
                       "known_as": classify(spec, passes, bad[0]) if bad else None}, indent=1))
